@@ -18,6 +18,19 @@ Two independent forward simulators are used:
       (T) is cross-checked against (J) on every ancilla case (harness error if they disagree).
 Nothing of oqupy.gradient / oqupy.system_dynamics / oqupy.system is used by the oracle: Liouvillians,
 their parameter derivatives, half-step propagators and the contraction order are re-derived here.
+
+Alphabet (full products, simplest first; see build_cases):
+  N {1,2,3 (+4 thorough)} x M {1,2,3} x model {H; H + parameter-dependent rate; parameter-dependent jump operator with
+  complex coefficients; both} x environment set {one generic ancilla; two commuting; two non-commuting (z-type, x-type) in
+  both list orders; three environments; PT-TEMPO sigma_z; PT-TEMPO sigma_z + sigma_x in both orders (+ two generic
+  joint-unitary ancillas, thorough)} x target {non-Hermitian matrix; callable (purity) (+ pure state transposed, callable of a
+  squared expectation, thorough)} x propagator derivatives {user-supplied, numdifftools} x parameter table {generic,
+  all ones = symmetric pulse of the repository's tests (+ all zeros, thorough)};  plus sub-products for d=3 systems,
+  non-zero start_time, and process tensors whose last bond is closed by a non-trivial cap tensor.
+  Constraint: PT-TEMPO cannot build a process tensor of fewer than two steps, so PT-TEMPO sets have N >= 2.
+Failure signatures: gradient-mismatch (with the refinement ':equals-backpropagation-with-environments-in-forward-list-order'
+when the returned gradient coincides with the prediction of that specific defect), dynamics-mismatch, final-state-mismatch,
+times-mismatch, gradient-shape, exception:<Type>.
 """
 import itertools
 
@@ -36,8 +49,11 @@ DT = 0.4
 # tolerances: relative to max |exact gradient entry| of the case (fixed after measuring, see run())
 # No truncation happens between the process tensor handed to the library and the one read by the oracle (same object),
 # so deviations are plain floating point (user derivatives) or the accuracy of numdifftools' Richardson extrapolation.
-# Measured over the whole thorough alphabet on a tree in which the property holds (suggested repairs applied):
-# user 3.2e-14, numdifftools 1.8e-11, dynamics 1.1e-15;  smallest effect of the known order defect 3e-3.
+# Measured over the whole thorough alphabet (10 964 cases) on a tree in which the property holds (the two suggested
+# repairs applied to a scratch copy): user 3.2e-14, numdifftools 2.0e-11, dynamics 1.7e-15, i.e. >= 300x head-room each.
+# Smallest relative effect of the known environment-order defect over the alphabet: 3e-3 (thorough), 5.8e-2 (quick);
+# the seeded single-branch mutations (transposition, wrong half step, wrong parameter row, dropped imaginary part,
+# index shift, stale state for callable targets, missing leg swap) all move entries by > 1e-2.
 TOL_USER = 1e-11       # user-supplied (Frechet) propagator derivatives: no numerical differentiation anywhere
 TOL_NUM = 1e-8         # numdifftools Jacobian of the half-step propagator inside the library
 TOL_STATE = 1e-12      # reported dynamics vs forward simulation (same tensors, no truncation in between)
